@@ -39,6 +39,7 @@ import (
 	"os"
 	"os/exec"
 	"runtime"
+	"runtime/debug"
 	"sort"
 	"strconv"
 	"strings"
@@ -61,6 +62,15 @@ var crashDeny = []string{
 }
 
 var crashDenySet map[string]bool
+
+// exact texts that are executed although they contain a denied name (see gen_crash.go)
+var crashAllowExact = map[string]bool{}
+
+func init() {
+	for _, t := range crashIncludeTexts {
+		crashAllowExact[t] = true
+	}
+}
 
 func isIdentByte(c byte) bool {
 	return c >= 'a' && c <= 'z' || c >= 'A' && c <= 'Z' || c >= '0' && c <= '9' || c == '_' || c == '.' || c == '!' || c == '<' || c == '>' || c == '-' || c >= 0x80
@@ -179,6 +189,11 @@ func (ce *crashEnv) guard(f func() string) string {
 	case c := <-done:
 		return c
 	case <-time.After(crashWatchdog):
+		if os.Getenv("VERIF_C01_TIMING") != "" {
+			buf := make([]byte, 1<<16)
+			n := runtime.Stack(buf, true)
+			fmt.Fprintf(os.Stderr, "HUNG; goroutines:\n%s\n", buf[:n])
+		}
 		crashHung = true
 		exitAfterOp = true
 		return "hang"
@@ -194,7 +209,13 @@ func valueClass(v zygo.Sexp, err error) string {
 	if v == nil {
 		return "gonil"
 	}
-	_ = v.SexpString(nil) // printing the result is part of the entry point
+	// printing the result is part of the entry point. A result is a finite value: its
+	// printer gets a 4 MB stack; a printer that recurses without bound (a value that
+	// contains itself) then dies at once with Go's unrecoverable "stack overflow" instead of
+	// after the watchdog has already classified the op as non-terminating.
+	old := debug.SetMaxStack(4 << 20)
+	_ = v.SexpString(nil)
+	debug.SetMaxStack(old)
 	return "ok"
 }
 
@@ -347,7 +368,7 @@ func crashQuiet() {
 	}
 }
 
-const crashWatchdog = 2 * time.Second
+var crashWatchdog = 2 * time.Second
 
 // ---------------------------------------------------------------- enumeration
 
@@ -472,7 +493,7 @@ func firstBad(r crashRec) string {
 // ---------------------------------------------------------------- single texts
 
 func crashText(cfg byte, text string) string {
-	if crashDenied(text) {
+	if crashDenied(text) && !crashAllowExact[text] {
 		return "skip"
 	}
 	var rec crashRec
@@ -569,6 +590,11 @@ func crashExec(toks []string) string {
 
 func crashExec1(toks []string) string {
 	crashQuiet()
+	if w := os.Getenv("VERIF_C01_WATCHDOG"); w != "" { // development aid
+		if d, err := time.ParseDuration(w); err == nil {
+			crashWatchdog = d
+		}
+	}
 	if len(toks) < 1 {
 		return "bad-op"
 	}
